@@ -309,6 +309,58 @@ def run_parallax(block, ctx):
     ctx.sample(block[0])
 
 
+# -- one Earth object re-set to other ellipsoids ------------------------------------------------------
+
+def earth_views(e):
+    v = []
+    for lat in (0.0, 33.356, -66.5, 90.0):
+        v += [e.rho(lat), e.rho_sinphi(lat, 1706), e.rho_cosphi(lat, 1706), e.rp(lat), e.rm(lat),
+              e.linear_velocity(lat)]
+    v.append(e.distance(2.337, 48.836, -77.065, 38.92)[0])
+    v.append(e.distance(0.0, 0.0, 0.0, 45.0)[0])
+    return v
+
+
+def check_earth_history(case):
+    """ONE Earth object: queried, set() to another ellipsoid, queried again ...; after every step all
+    its answers must be those of a fresh Earth on the current ellipsoid."""
+    hist = case["history"]
+    out = []
+    e = Earth(ELLS[hist[0]]())
+    for k, name in enumerate(hist):
+        if k:
+            try:
+                e.set(ELLS[name]())
+            except Exception as ex:
+                out.append("Earth.set(%s) raised %r" % (name, ex))
+                break
+        try:
+            got = earth_views(e)
+            exp = earth_views(Earth(ELLS[name]()))
+        except Exception as ex:
+            out.append("views after %r raised %r" % (hist[:k + 1], ex))
+            break
+        bad = [i for i in range(len(got)) if got[i] != exp[i]]
+        if bad:
+            out.append("after %r the re-used Earth answers %r where a fresh Earth(%s) answers %r (view %d)"
+                       % (hist[:k + 1], got[bad[0]], name, exp[bad[0]], bad[0]))
+            break
+    return out
+
+
+def run_earth_history(block, ctx):
+    for case in block:
+        ctx.evals += 2 * 26 * len(case["history"])
+        ctx.traces += 1
+        ctx.transitions += len(case["history"]) - 1
+        ctx.nt_count += 1
+        res = check_earth_history(case)
+        for msg in res:
+            ctx.viol(case, msg, site="earth_history")
+        ctx.outcome((case["history"][-1], len(res)))
+    ctx.sample(block[0])
+
+
 def clauses(tier):
     global POINTS
     lats = LATS
@@ -317,7 +369,10 @@ def clauses(tier):
         POINTS = sorted(set(POINTS + [(lo, la) for lo in (-180, -90, -45, 0, 30, 90, 135, 179.999999)
                                       for la in (-90, -60, -30, -1e-7, 0, 30, 60, 89.999, 90)]))
     ell = [{"ellipsoid": en, "lat": lat} for en in ELLS for lat in lats]
+    hists = [{"history": list(h)} for n in ((2, 3, 4) if tier == "thorough" else (2, 3))
+             for h in itertools.product(sorted(ELLS), repeat=n)]
     return [
+        Clause("earth_history", chunks(hists, 8), run_earth_history, check_earth_history, floor=100, shape="H"),
         Clause("ellipsoid", chunks(ell, 8), run_ellipsoid,
                lambda c: [m for _, m, _ in check_ellipsoid(c)], floor=20),
         Clause("distance", chunks(distance_cases(), 16), run_distance,
